@@ -589,6 +589,72 @@ func c01Run(b *core.B) {
 			b.Sample(map[string]any{"template": src, "partials": g.partials, "payload": p, "got": res.Out})
 		}
 	}
+	// mixed operands: every ordered pair of sources joined by +, written in four
+	// places. Most pairs are refused today (trusted HTML is no operand); the
+	// property only says what may be in the output when they are not: the
+	// trusted payloads verbatim, everything else escaped.
+	pairForms := []struct{ name, tmpl string }{
+		{"direct", "<%= A + B %>"},
+		{"let", "<% let x = A + B %><%= x %>"},
+		{"fn", "<% let f = fn(a, b) { return a + b } %><%= f(A, B) %>"},
+		{"for", "<%= for (e) in [B] { %><%= A + e %><% } %>"},
+	}
+	clash := func(a, c int) bool {
+		if a == c {
+			return true
+		}
+		same := func(x, y int) bool { return (a == x && c == y) || (a == y && c == x) }
+		return same(0, 12) || same(20, 21)
+	}
+	for sa := 0; sa < c01NSources; sa++ {
+		for sb := 0; sb < c01NSources; sb++ {
+			if clash(sa, sb) {
+				continue
+			}
+			for _, f := range pairForms {
+				for _, body := range []string{"<>&'\"", "<b>&amp;</b>"} {
+					idx++
+					if !b.Mine(idx) {
+						continue
+					}
+					ida, idb := fmt.Sprintf("Zq%da", idx%9973), fmt.Sprintf("Zq%db", idx%9973)
+					ctx := c01Ctx(map[string]string{})
+					ea, va, ok1 := c01Source(sa, ida+body, ctx)
+					eb, vb, ok2 := c01Source(sb, idb+body, ctx)
+					if !ok1 || !ok2 {
+						continue
+					}
+					src := strings.NewReplacer("A", ea, "B", eb).Replace(f.tmpl)
+					if !b.Begin(src) {
+						continue
+					}
+					res := render(b, src, ctx)
+					b.Count("pair-form:" + f.name)
+					if res.Pan != nil {
+						continue
+					}
+					if res.Err != nil {
+						b.Count("pair-refused(allowed)")
+						continue
+					}
+					b.Count("pair-rendered")
+					var trusted []string
+					if va.trusted {
+						trusted = append(trusted, va.s)
+					}
+					if vb.trusted {
+						trusted = append(trusted, vb.s)
+					}
+					if strings.Contains(res.Out, ida) || strings.Contains(res.Out, idb) {
+						b.NonTrivialStr(src, ida)
+					}
+					if why := c01ModelFree(res.Out, trusted); why != "" {
+						b.Violate("pair|"+c01SourceNames[sa]+"+"+c01SourceNames[sb]+"|unescaped-output", why)
+					}
+				}
+			}
+		}
+	}
 	// exhaustive depth 1: every (source, step, sink) triple x core payloads
 	rr := b.Rng(7)
 	coreBodies := []string{"<>&'\"", "&amp;", "é✓<é>", "%><%= 1 %><%"}
@@ -636,7 +702,7 @@ func init() {
 	core.Register(&core.Prop{
 		ID:    "C01",
 		Level: "exploration",
-		Rule: "payload = unique alnum id + hostile body (each special alone/together, ready-made entities, multi-byte, invalid UTF-8, NUL, tag delimiters; thorough: all strings of length <= 3 over {< > & ' \" a é}); " + fmt.Sprint(c01NSources) + " sources (context var, literals, struct/pointer/map/slice fields, helper results, raw(), template.HTML, HTMLer, reflect.Value, Stringers, named string types with and without methods, a time's zone name, nil pointers whose String / HTML expect nil) x " + fmt.Sprint(c01NSteps) + " plumbing steps (let, array/hash wrap+index, identity user fn / Go helper, concatenation, for variable, if/else block, helper block, contentFor body, contentOf data, partial data, layout, function bodies, typed-HTML containers, debug()) x " + fmt.Sprint(c01NSinks) + " sinks (output tag, if / for return, array literal, hash index, let, typed and interface slices, loops over them, helper blocks left by break / continue, a typed container printed whole); every (source, step, sink) triple and every step pair enumerated, deeper routes random (depth <= 3 quick, <= 5 thorough). " +
+		Rule: "payload = unique alnum id + hostile body (each special alone/together, ready-made entities, multi-byte, invalid UTF-8, NUL, tag delimiters; thorough: all strings of length <= 3 over {< > & ' \" a é}); " + fmt.Sprint(c01NSources) + " sources (context var, literals, struct/pointer/map/slice fields, helper results, raw(), template.HTML, HTMLer, reflect.Value, Stringers, named string types with and without methods, a time's zone name, nil pointers whose String / HTML expect nil) x " + fmt.Sprint(c01NSteps) + " plumbing steps (let, array/hash wrap+index, identity user fn / Go helper, concatenation, for variable, if/else block, helper block, contentFor body, contentOf data, partial data, layout, function bodies, typed-HTML containers, debug()) x " + fmt.Sprint(c01NSinks) + " sinks (output tag, if / for return, array literal, hash index, let, typed and interface slices, loops over them, helper blocks left by break / continue, a typed container printed whole); every ordered pair of sources joined by + in four places (refused or escaped); every (source, step, sink) triple and every step pair enumerated, deeper routes random (depth <= 3 quick, <= 5 thorough). " +
 			"Oracle: expected output is built by the generator; byte equality with the canonical escaping, else (a) no raw special outside verbatim trusted payloads and (b) entity-agnostic equality after unescaping. Non-trivial = the payload id actually appeared in the output (counted by template+payload hash).",
 		Assume:  []string{"literal text between tags uses an alphabet without HTML specials, so every special in the output is attributable to a payload", "NUL bytes are judged by the model-free oracle only (html/template maps NUL to U+FFFD)", "string + template.HTML, fmt.Stringer and named string types are not generated (abstentions of DESIGN.md §5 C01)"},
 		Batches: batchesQT(16, 64),
